@@ -99,7 +99,7 @@ static bool same(const Answer& a, const Answer& b) {
 struct Op { std::string name; int kind; int a = 0, b = 0; bool config = false; int cslot = -1, cval = 0; };
 enum { K_UNK, K_RES, K_SSQ, K_DEF, K_QXX, K_QBB, K_Q0XX, K_LINDEP, K_MINX_ALL, K_MINX_S, K_RESET, K_SETALG, K_QBX, K_ADJ_X, K_ADJ_R, K_ADJ_RTR,
        N_SOLVE, N_RES, N_VWV, N_DOF, N_NULL, N_M0, N_NUNK, N_NOBS, N_QXX, N_QBB, N_STDOBS, N_WCOEF, N_STDRES, N_STUD, N_OBSCTL, N_UNKSTD, N_ELL, N_LINDEP, N_COND, N_CONF, N_HUGE, N_CONN, N_M0POST,
-       N_SETALG, N_UPD, N_M0TYPE, N_CONFPR };
+       N_SETALG, N_UPD, N_M0TYPE, N_CONFPR, N_STATUS, N_UNKTAB };
 
 static uint64_t hvec(const double* p, int n, uint64_t h) { for (int i = 0; i < n; i++) h = hround(p[i], h); return h; }
 template <class V> static uint64_t hv(const V& v, uint64_t h = 1469598103934665603ULL) { int n = v.dim(); h = fnv(&n, sizeof n, h); return n ? hvec(v.begin(), n, h) : h; }
@@ -257,9 +257,11 @@ struct AdjTarget : Target {
 using GNU_gama::local::LocalNetwork;
 struct NetTarget : Target {
   std::unique_ptr<LocalNetwork> net;
-  std::string pt_id;
+  std::string pt_id, pt_last;
   int cfg_m0 = 1;      // 1 aposteriori (default) 0 apriori
   int cfg_cp = 0;      // index into conf-pr menu
+  int cfg_st = 0;      // 0 = status as in the input, 1 = first / 2 = last free xy point fixed (PD status changed + update_points)
+  bool orig_constrained = false, last_constrained = false;
   NetTarget(const Problem& pp) : Target(pp) {
     net.reset(new LocalNetwork);
     {
@@ -273,24 +275,37 @@ struct NetTarget : Target {
     GNU_gama::local::refine_obsdh_reductions(net.get());
     cfg_alg = 0; cfg_minx = 0;
     cfg_m0 = net->m_0_aposteriori() ? 1 : 0;
-    for (auto i = net->PD.begin(); i != net->PD.end(); ++i) if (i->second.free_xy()) { pt_id = i->first.str(); break; }
+    for (auto i = net->PD.begin(); i != net->PD.end(); ++i) if (i->second.free_xy()) {
+      if (pt_id.empty()) { pt_id = i->first.str(); orig_constrained = i->second.constrained_xy(); }
+      pt_last = i->first.str(); last_constrained = i->second.constrained_xy();
+    }
   }
   std::string key() override {
     LocalNetwork& n = *net;
     std::ostringstream o;
-    o << cfg_alg << "/" << cfg_m0 << "/" << cfg_cp << " N f" << n.tst_redbod_ << n.tst_redmer_ << n.tst_rov_opr_ << n.tst_vyrovnani_ << " a" << n.algorithm_ << " t" << (int)n.typ_m_0_ << " c" << n.konf_pr_;
+    o << cfg_alg << "/" << cfg_m0 << "/" << cfg_cp << "/" << cfg_st << " N f" << n.tst_redbod_ << n.tst_redmer_ << n.tst_rov_opr_ << n.tst_vyrovnani_ << " a" << n.algorithm_ << " t" << (int)n.typ_m_0_ << " c" << n.konf_pr_;
     if (n.tst_rov_opr_) o << " A" << std::hex << (hm(n.A) & 0xffffff) << " b" << (hv(n.b) & 0xffffff) << std::dec;
     if (n.tst_vyrovnani_) o << " r" << std::hex << (hv(n.r) & 0xffffff) << " s" << (hv(n.sigma_L) & 0xffffff) << " w" << (hv(n.vahkopr) & 0xffffff) << " p" << (hround(n.suma_pvv_, 7) & 0xffffff) << std::dec;
     o << " rm" << n.removed_points.size() << " | " << key_base(n.least_squares);
     return o.str();
   }
   bool risky(const Op& op) override { return !op.config && !net->tst_vyrovnani_; }
-  std::vector<int> cfgv() const override { return {cfg_alg, cfg_m0, cfg_cp}; }
+  std::vector<int> cfgv() const override { return {cfg_alg, cfg_m0, cfg_cp, cfg_st}; }
   Answer apply(const Op& op) override {
     static const char* AN[4] = {"envelope", "gso", "svd", "cholesky"};
     static const double CP[2] = {0.95, 0.80};
     LocalNetwork& n = *net;
     return guarded([&](Answer& a) {
+      // indexed queries are only meaningful inside the current dimensions (a status change shrinks them)
+      switch (op.kind) {
+        case N_QXX: case N_UNKSTD: case N_LINDEP:
+          if (op.a > n.unknowns_count() || op.b > n.unknowns_count()) { a.exc = "index-beyond-unknowns"; return; }
+          break;
+        case N_QBB: case N_STDOBS: case N_WCOEF: case N_STDRES: case N_STUD: case N_OBSCTL:
+          if (op.a > n.observations_count() || op.b > n.observations_count()) { a.exc = "index-beyond-observations"; return; }
+          break;
+        default: break;
+      }
       switch (op.kind) {
         case N_SOLVE: { const auto& x = n.solve(); a.v.assign(x.begin(), x.end()); break; }
         case N_RES: { const auto& r = n.residuals(); a.v.assign(r.begin(), r.end()); break; }
@@ -309,7 +324,7 @@ struct NetTarget : Target {
         case N_STUD: a.v.push_back(n.studentized_residual(op.a)); break;
         case N_OBSCTL: a.v.push_back(n.obs_control(op.a)); break;
         case N_UNKSTD: a.v.push_back(n.unknown_stdev(op.a)); break;
-        case N_ELL: if (pt_id.empty()) { a.exc = "network-has-no-xy-point"; break; } { double A = 0, B = 0, al = 0; n.std_error_ellipse(GNU_gama::local::PointID(pt_id), A, B, al); a.v = {A, B, al}; break; }
+        case N_ELL: if (pt_id.empty()) { a.exc = "network-has-no-xy-point"; break; } { double A = 0, B = 0, al = 0; if (!n.PD[GNU_gama::local::PointID(pt_id)].free_xy()) { a.exc = "point-not-free"; break; } n.std_error_ellipse(GNU_gama::local::PointID(pt_id), A, B, al); a.v = {A, B, al}; break; }
         case N_LINDEP: a.v.push_back(n.lindep(op.a) ? 1 : 0); break;
         case N_COND: a.v.push_back(n.cond()); break;
         case N_CONF: a.v.push_back(n.conf_int_coef()); break;
@@ -319,6 +334,22 @@ struct NetTarget : Target {
         case N_UPD: if (op.a == 0) n.update_points(); else if (op.a == 1) n.update_observations(); else if (op.a == 2) n.update_residuals(); else n.update_adjustment(); a.isvoid = true; break;
         case N_M0TYPE: if (op.a) n.set_m_0_aposteriori(); else n.set_m_0_apriori(); cfg_m0 = op.a; a.isvoid = true; break;
         case N_CONFPR: n.conf_pr(CP[op.a]); cfg_cp = op.a; a.isvoid = true; break;
+        case N_STATUS:
+          if (pt_id.empty()) { a.isvoid = true; break; }
+          {
+            // exactly one of the two points is fixed in status 1 / 2; the other one is as in the input
+            GNU_gama::local::LocalPoint& P = n.PD[GNU_gama::local::PointID(pt_id)];
+            GNU_gama::local::LocalPoint& L = n.PD[GNU_gama::local::PointID(pt_last)];
+            if (orig_constrained) P.set_constrained_xy(); else P.set_free_xy();
+            if (last_constrained) L.set_constrained_xy(); else L.set_free_xy();
+            if (op.a == 1) P.set_fixed_xy(); else if (op.a == 2) L.set_fixed_xy();
+            n.update_points(); cfg_st = op.a; a.isvoid = true;
+          }
+          break;
+        case N_UNKTAB: {
+          int nu = n.unknowns_count(); a.v.push_back(nu);
+          for (int i = 1; i <= nu; i++) { a.v.push_back((double)n.unknown_type(i)); std::string id = n.unknown_pointid(i).str(); a.v.push_back((double)(fnv(id.data(), id.size()) % 1000003)); }
+          break; }
         default: a.exc = "badop";
       }
     });
@@ -336,6 +367,7 @@ static std::vector<Op> make_ops(const Problem& p, int kind) {
       case K_MINX_S: case K_SETALG: case N_SETALG: o.cslot = 0; o.cval = a; break;
       case N_M0TYPE: o.cslot = 1; o.cval = a; break;
       case N_CONFPR: o.cslot = 2; o.cval = a; break;
+      case N_STATUS: o.cslot = 3; o.cval = a; break;
       default: break;
     }
     ops.push_back(o);
@@ -357,6 +389,8 @@ static std::vector<Op> make_ops(const Problem& p, int kind) {
     for (int a = 0; a < 4; a++) add(UN[a], N_UPD, a, 0, true);
     add("set_m_0_apriori", N_M0TYPE, 0, 0, true); add("set_m_0_aposteriori", N_M0TYPE, 1, 0, true);
     add("conf_pr(0.95)", N_CONFPR, 0, 0, true); add("conf_pr(0.80)", N_CONFPR, 1, 0, true);
+    add("unknown_table", N_UNKTAB);
+    add("status(first free xy point := fixed)+update_points", N_STATUS, 1, 0, true); add("status(last free xy point := fixed)+update_points", N_STATUS, 2, 0, true); add("status(as in input)+update_points", N_STATUS, 0, 0, true);
     return ops;
   }
   if (kind == 4) {
